@@ -115,7 +115,7 @@ func explore(args []string) {
 				}
 			}
 		}
-		res, err := sym.Explore(p, name, sym.ExploreOpts{Workers: *workers, MaxPaths: *maxPaths,
+		res, err := sym.Explore(p, name, sym.ExploreOpts{Workers: *workers, MaxPaths: *maxPaths, Progress: true,
 			Cfg: sym.Config{SolverKind: *solver, SolverTimeout: *timeout, Params: pm}})
 		if err != nil {
 			fmt.Fprintln(os.Stderr, "error:", err)
@@ -136,6 +136,7 @@ func explore(args []string) {
 			fmt.Printf("   FINDING kind=%s label=%s class=%s unknown=%v msg=%s model=%s\n      stack=%v\n", f.Kind, f.Label, f.Class, f.Unknown, f.Msg, b, f.Stack)
 		}
 		if *verbose {
+			fmt.Println("   fork sites:", res.ForkSites)
 			for _, s := range res.Samples {
 				b, _ := json.Marshal(s)
 				fmt.Println("   SAMPLE", string(b))
